@@ -64,7 +64,8 @@ pub fn all() -> Vec<PropInfo> {
                (a') pykmertools to_acgt of both iterator classes against the model's decoding; (b) sequences x k: each pair's second component is the reverse complement of the first, the stream of the reverse-complemented text is the mirrored stream, \
                canonical multisets agree; non-trivial = at least 2 windows and seq != its reverse complement; distinct by hash of the case \
                plus cold-start cases (fresh process, 2-16 threads released together, first calls of rev_comp / numeric_to_kmer / the iterator on generated arguments) \
-               sequences with raw bytes 0x00-0x03 for the clause 'second component = reverse complement of the first'; Python to_acgt inside the iteration loop, after it, and for families of codes sharing low / high digits on one object",
+               sequences with raw bytes 0x00-0x03 for the clause 'second component = reverse complement of the first'; Python to_acgt inside the iteration loop, after it, and for families of codes sharing low / high digits on one object \
+               the stream clauses also through pykmertools.KmerGenerator on sequences of several kilobytes with kilobyte stretches of N",
         assumptions: &["codes >= 4^k are never passed (unspecified)", "reverse complement of a foreign byte is itself; U complements to A"],
         abort_is_violation: false,
     },
@@ -117,7 +118,8 @@ pub fn all() -> Vec<PropInfo> {
         watchdog: (900, 7200),
         rule: "Hypothesis (python3-vt, seeded from VERIF_SEED, no database) over Python str from three alphabets (nucleotide, mixed case + IUPAC + punctuation, full unicode without surrogates, and nucleotides sprinkled with the raw code points U+0000..U+0003) x parameters in the documented ranges x batch sizes 0..50 (occasionally 2000); \
                differential against the Rust core built from the same tree (vh oracle-server): k-mer and minimiser iterators equal, to_acgt equal, oligo vector within 1e-12 and header equal, CGR equal or ValueError exactly when the core returns Err, batch == list of per-sequence results in order (CGR batch raises iff an element is bad), iterator from a released temporary string followed by gc and 1 MiB of fresh allocations still equals the core; the interpreter must survive (a dead interpreter = violation with the journaled example); \
-               non-trivial = non-empty result and (non-ASCII present or batch >= 2 or released-string leg); distinct by hash of the example",
+               non-trivial = non-empty result and (non-ASCII present or batch >= 2 or released-string leg); distinct by hash of the example \
+               the eight shards run with different pool sizes (RAYON_NUM_THREADS unset, 1, 2, 3, 5, 7); sequence-file punctuation in every alphabet",
         assumptions: &["scheduling of rayon's global pool inside the extension is only stressed (large batches), not controlled", "U+0000..U+0003 are generated in a dedicated alphabet only: every leg is differential against the core, which defines what they mean"],
         abort_is_violation: false,
     },
@@ -131,7 +133,8 @@ pub fn all() -> Vec<PropInfo> {
                coverage (bin size/count 1..6 with k-mer multiplicities exactly at, just around and far beyond bin size x bin count), counting (partitions far above the number of distinct k-mers, k up to 31), k-mer CGR and the per-sequence oligo routine are executed in the same journaled child: shards are built with debug assertions so a violated get_unchecked precondition aborts the shard (dead shard = violation, journaled case = replay); \
                non-trivial = mmap: >= 2 records and (delimiter length != 1 or header or threads >= 2); cov: multiplicity >= bin size x bin count - 1 and a valid window; ctr: >= 2 partitions; distinct by hash of the case \
                the mmap leg also runs with a giant record (frequencies rounding up to 1); the coverage kernel also with an unrelated or k-mer-free counting input \
-               the mmap leg runs over every container and, in a fifth of the cases, as the second run of one computer object whose input file was rewritten; Python objects whose public data attributes were assigned generated values (child interpreter, debug-assertions build of the module: death by signal = violation)",
+               the mmap leg runs over every container and, in a fifth of the cases, as the second run of one computer object whose input file was rewritten; Python objects whose public data attributes were assigned generated values (child interpreter, debug-assertions build of the module: death by signal = violation) \
+               the mmap writer driven by the executable with the thread option left to the program, under generated environments: file size = header + records x row and no NUL byte",
         assumptions: &["an out-of-bounds read through a site without ub_checks is not observable", "the write-log hook panics before an out-of-bounds copy would happen, so the harness process is not corrupted"],
         abort_is_violation: true,
     },
@@ -144,7 +147,8 @@ pub fn all() -> Vec<PropInfo> {
         rule: "well-formed record lists serialised as FASTA (single-line / wrapped / CRLF / no final newline) or 4-line FASTQ, plain or gzip with 1..=5 members split at arbitrary byte offsets (stored or deflated), \
                read back through SeqFormat::get + get_reader + Sequences and through seq_stats; oracle = the record list itself (round trip); \
                non-trivial = >= 2 records and (wrapped or CRLF or no final newline or an empty record or >= 2 gzip members or a line > 8 KiB); distinct by hash of the case \
-               multi-line FASTQ, record starts (or a point inside the header line, or between CR and LF) aligned to block boundaries of the text, nameless records with bases, descriptions containing > @ +",
+               multi-line FASTQ, record starts (or a point inside the header line, or between CR and LF) aligned to block boundaries of the text, nameless records with bases, descriptions containing > @ + \
+               gzip members aligned to offsets of the compressed file (8192 j +- 2); the same path read again in this process after a rewrite of the same sizes",
         assumptions: &["only well-formed input: unique ids without white space, one space before the description, no blank lines, FASTQ only when every record has >= 1 base (rust-bio rejects empty FASTQ sequences), ASCII sequence bytes", "multi-line FASTQ (sequence and quality wrapped) counts as well-formed, with quality lines that do not start with @ or +; a record may have an empty name if it has bases (one with neither is the reader's end marker and is not generated)"],
         abort_is_violation: false,
     },
@@ -171,7 +175,8 @@ pub fn all() -> Vec<PropInfo> {
                kmers.vectors must have one row per record in input order, each equal to the model histogram built from the model count table (exact raw, 5e-7 normalised); \
                non-trivial = >= 2 records and (a window saturates into the last bin or some record has >= 2 non-zero bins); distinct by hash of the case \
                bin sizes to 5000 and an extra record whose k-mers occur exactly m x bin size (+0, +-1) times; re-run-in-place cases: same directory and same input path, file rewritten with other records of the same byte size (mtime kept in half of the cases), second result against the model of the new content \
-               contention on new keys with bin size 1; round-number multiplicities (255 .. 65536 +-1); one CovComputer object through 2-4 rounds of set_kmer_path / build_table / compute_coverages",
+               contention on new keys with bin size 1; round-number multiplicities (255 .. 65536 +-1); one CovComputer object through 2-4 rounds of set_kmer_path / build_table / compute_coverages \
+               the same check through the executable under generated environments (pool-size variable, 1-3 CPUs available, relative paths, locale)",
         assumptions: &["'flush per few records' needs > 1 GiB of bases per batch and is not generated", "tolerance 5e-7 + 1e-12 for 6-decimal text"],
         abort_is_violation: false,
     },
@@ -211,7 +216,8 @@ pub fn all() -> Vec<PropInfo> {
                (2) strings with one inserted foreign byte must be refused (Err or panic), never Ok; (2') pykmertools.CgrComputer.vectorise_one: exact points for nucleotide strings, ValueError for any string holding another character (incl. non-ASCII); (3) files of nucleotide records x containers x threads x batch limit {1 byte, 3 records, half, 4 GiB}, optionally with one poisoned record: rows per record in order, and on refusal only correct complete rows of records before the offending one; \
                non-trivial = length >= 5 with >= 3 distinct bases (direct) / >= 2 records one of them >= 5 bases (files); distinct by hash of the case \
                every point list is also checked locally: point i = midpoint of the reported point i-1 and the corner within 4 ulp; long low-complexity sequences (8 000 - 70 000 / 1.2 M bases) through the library routine and Python \
-               file cases with any printable non-nucleotide character as the offending byte and with hundreds of records per batch",
+               file cases with any printable non-nucleotide character as the offending byte and with hundreds of records per batch \
+               left-over output at the output path",
         assumptions: &["a panic counts as 'rejected with an error'", "S >= 1; exactness rule: exact iff the exact value needs <= 53 significant bits"],
         abort_is_violation: false,
     },
@@ -224,7 +230,8 @@ pub fn all() -> Vec<PropInfo> {
         rule: "records (foreign bytes allowed, degenerate lengths) x containers x k 1..=7 x S x normalised/raw x threads x batch limit: row i has one (x,y,f) per canonical k-mer in rank order, (x,y) = exact chaos-game end point of the k-mer text (identical in every row), f within 1e-9 of the model oligo value and equal (5e-7 / exact) to what comp oligo writes for the same file; \
                non-trivial = >= 2 records and some record with >= 2 non-zero columns; distinct by hash of the case \
                plus the same check through the executable (S in {1, 2, 3, k^2, 2^20, uniform}) and giant records with counts beyond 2^16 and 2^24 \
-               record counts beyond 2^16 and 2^17 (amplicon-like inputs, each distinct record verified once, identical records byte for byte); another computer of the same k and another square size alive",
+               record counts beyond 2^16 and 2^17 (amplicon-like inputs, each distinct record verified once, identical records byte for byte); another computer of the same k and another square size alive \
+               left-over output at the output path",
         assumptions: &["k-mer end points are exactly representable for k <= 7 and S <= 2^20 (asserted)"],
         abort_is_violation: false,
     },
@@ -237,7 +244,8 @@ pub fn all() -> Vec<PropInfo> {
         rule: "a generated in-range command (every subcommand, presets, -c/--counts, -H, -t 0..16, -k/-m/-w/-s/-c/-v/-m values, --acgt, --alt-input, stdin) over generated inputs is executed through the built executable and related to a second execution: the library called with the documented meaning of the options (differential), another preset (equal after delimiter replacement), header toggled (exactly one more line), another thread count (same bytes / same line multiset), counts toggled (per-row normalisation within 5e-7), --acgt toggled (same table after decoding), stdin instead of a file, the same command line through the Python package's entry point pykmertools.run_cli (py/entry.py); \
                options are written in a generated spelling (-k 5, --k-size 5, --k-size=5, -k5) and, in a quarter of the cases, options at their documented default are left out; \
                plus a fixed list of values just outside every documented range and a generated leg (a random accepted command in a random spelling with one of k, m, w, bin size, bin count, memory pushed outside its range: below, just above, far above incl. values that wrap into the range when truncated to 8/16/32 bits, beyond u64, negative, non-numeric): diagnostic on stderr, no output location created, no panic; non-trivial = >= 2 records and >= 2 options differing from their defaults; distinct by hash of the case \
-               generated option spelling; degenerate tails; relations on top of an earlier result; every result must be NUL-free text",
+               generated option spelling; degenerate tails; relations on top of an earlier result; every result must be NUL-free text \
+               executable runs under generated environments, and a relation 'same command, two environments'",
         assumptions: &["exit status of refusals is not constrained (the statement does not; the w <= m refusal exits 0)", "comp cgr is always given an explicit -v (its default size is not documented)"],
         abort_is_violation: false,
     },
@@ -250,7 +258,8 @@ pub fn all() -> Vec<PropInfo> {
         rule: "degenerate-shape record lists (0 records; lengths 0, 1, k-1, k, k+1, m, w; all-ambiguous; ambiguous first/last; mixtures; FASTA and, when no record is empty, FASTQ; all containers) x every subcommand with accepted options, through the executable (documented ranges) and through the library (k, m from 1; both oligo writers; cov flush modes); \
                validity predicate: exit 0 / no panic / no error, record-oriented outputs have exactly one row per record of the right width, every number finite, every minimiser run at least a window long, free of ambiguous bytes and containing its minimiser (no placeholder), counts > 0 with codes < 4^k; whole-sequence CGR may refuse records with foreign bytes; \
                non-trivial = the input contains a boundary shape relevant to the subcommand's parameter; distinct by hash of the case \
-               blocks of 64..4096 identical degenerate records at multiples of the block size (optionally ending the input) and record starts on block boundaries of the text",
+               blocks of 64..4096 identical degenerate records at multiples of the block size (optionally ending the input) and record starts on block boundaries of the text \
+               executable runs under generated environments; left-over output at the output location",
         assumptions: &["an executable run exceeding 120 s is reported as inconclusive, not as a violation"],
         abort_is_violation: false,
     },
